@@ -37,6 +37,7 @@ package jt808
 //@   ensures C02.nil: result1 != nil ==> result0 == nil
 //@   ensures C02.err: result1 != nil ==> iserr(result1, protocol.ErrUnqualifiedData)
 //@   ensures C09.own: within(result0, data) || fresh(result0)
+//@   ensures C02.fast: old(noesc(data)) && result1 == nil ==> ptr(result0) == ptr(data) + 1 && len(result0) == len(data) - 2
 //@   ensures len: result1 == nil ==> 1 <= len(result0) && len(result0) <= len(data) - 2
 //@   ensures C01.len: result1 == nil ==> len(result0) == len(data) - 2 - old(ec(data, len(data)-2))
 //@   ensures C01.content: result1 == nil ==> forall(k, 1, len(data)-1, !old(esec(data, k)) ==> result0[k-1-old(ec(data,k))] == old(etok(data, k)))
@@ -116,9 +117,64 @@ package jt808
 //@   ensures C02.attr: result == nil ==> h.Property.attribute == be16(data, 2) && h.Property.BodyDayaLen == be16(data, 2) & 0x3ff
 //@   ensures C02.version: result == nil ==> h.Property.Version == byte((be16(data, 2) >> 14) & 1) && h.Property.PacketFragmented == byte((be16(data, 2) >> 13) & 1) && h.Property.EncryptMethod == byte((be16(data, 2) >> 10) & 1)
 //@   ensures C02.proto: result == nil ==> h.ProtocolVersion == ite(is2019(data), byte(3), byte(2))
-//@   ensures C02.bcd: result == nil ==> ptr(h.bcdTerminalPhoneNo) == ptr(data) + ite(is2019(data), 5, 4) && len(h.bcdTerminalPhoneNo) == ite(is2019(data), 10, 6)
+//@   ensures C02.bcd: result == nil ==> ptr(h.bcdTerminalPhoneNo) == ptr(data) + ite(is2019(data), 5, 4) && len(h.bcdTerminalPhoneNo) == ite(is2019(data), 10, 6) && cap(h.bcdTerminalPhoneNo) == cap(data) - ite(is2019(data), 5, 4)
 //@   ensures C02.serial: result == nil ==> h.SerialNumber == be16(data, hbase(data) - 2)
 //@   ensures C02.sum: result == nil ==> h.SubPackageSum == ite(isfrag(data), be16(data, hbase(data)), 0)
 //@   ensures C02.no: result == nil ==> h.SubPackageNo == ite(isfrag(data), be16(data, hbase(data) + 2), 0)
 //@   ensures C02.headEnd: result == nil ==> h.headEnd == hlen(data)
 //@   ensures input: forall(k, 0, len(data), data[k] == old(data[k]))
+
+// ---------------------------------------------------------------------------------------------
+// Decode = unescape ; XOR check ; Header.decode ; length check. For escape-free frames the payload is
+// data[1:len-1] and every clause is stated over the raw frame; with escapes the payload is the slice described
+// by unescape's content clause.
+// ---------------------------------------------------------------------------------------------
+//@ spec noesc(d []byte) bool = forall(k, 1, len(d)-1, d[k] != 0x7d)
+
+//@ func (*JTMessage).Decode
+//@   modifies *j, *j.Header, *j.Header.Property
+//@   ensures C02.syntax: result == nil ==> old(w1(data) && w2(data))
+//@   ensures C02.reject: !old(w1(data) && w2(data)) ==> iserr(result, protocol.ErrUnqualifiedData)
+//@   ensures C02.plainiff: old(noesc(data)) ==> iff(result == nil, old(w1(data) && utils.xorfold(data[1:len(data)-1], len(data)-2) == 0 && len(data)-2 >= 4 && len(data)-2 >= hlen(data[1:len(data)-1]) && len(data)-2 == hlen(data[1:len(data)-1]) + blen(data[1:len(data)-1]) + 1))
+//@   ensures C02.checksum: old(noesc(data) && w1(data)) && old(utils.xorfold(data[1:len(data)-1], len(data)-2)) != 0 ==> iserr(result, protocol.ErrCheckCode)
+//@   ensures C02.bodylen: result == nil ==> len(j.Body) == int(j.Header.Property.BodyDayaLen)
+//@   ensures C02.plainbody: old(noesc(data)) && result == nil ==> ptr(j.Body) == ptr(data) + 1 + old(hlen(data[1:len(data)-1])) && len(j.Body) == old(blen(data[1:len(data)-1]))
+//@   ensures C02.plainid: old(noesc(data)) && result == nil ==> j.Header.ID == old(be16(data, 1)) && j.Header.Property.attribute == old(be16(data, 3))
+//@   ensures C02.plainserial: old(noesc(data)) && result == nil ==> j.Header.SerialNumber == old(be16(data, 1 + hbase(data[1:len(data)-1]) - 2))
+//@   ensures C02.plainverify: old(noesc(data)) && result == nil ==> j.VerifyCode == old(data[len(data)-2])
+//@   ensures C09.own: result == nil ==> within(j.Body, data) || fresh(j.Body)
+//@   ensures C09.ownbcd: result == nil ==> within(j.Header.bcdTerminalPhoneNo, data) || fresh(j.Header.bcdTerminalPhoneNo)
+//@   ensures input: forall(k, 0, len(data), data[k] == old(data[k]))
+
+// ---------------------------------------------------------------------------------------------
+// Header.Encode: payload = id(2) attr(2) [01] bcd serial(2) body xor ; result = escape(payload).
+// The payload layout is asserted on the argument of the call to escape (arg0).
+// ---------------------------------------------------------------------------------------------
+//@ spec v19(h *Header) int = ite(h.ProtocolVersion == 3, 1, 0)
+//@ spec encid(h *Header) uint16 = ite(h.ReplyID == 0, h.ID, h.ReplyID)
+//@ spec encattr(h *Header, n int) uint16 = (uint16(h.Property.bit15) << 15) | (uint16(h.Property.Version) << 14) | (uint16(h.Property.EncryptMethod) << 10) | uint16(n)
+//@ spec hdr4(d []byte, id uint16, attr uint16, v int) bool = be16(d, 0) == id && be16(d, 2) == attr && (v == 1 ==> d[4] == 1)
+
+//@ func (*Header).Encode
+//@   requires C01.body: len(body) <= 1023
+//@   requires C01.phone: len(h.bcdTerminalPhoneNo) <= 16
+//@   requires C01.flags: h.Property.PacketFragmented <= 1 && h.Property.EncryptMethod <= 1 && h.Property.Version <= 1 && h.Property.bit15 <= 1
+//@   modifies *h.Property
+//@   ensures C01.nofrag: h.Property.PacketFragmented == 0
+//@   ensures C01.bodylen: h.Property.BodyDayaLen == uint16(len(body))
+//@   ensures C01.fresh: fresh(result)
+//@   ensures C01.delims: len(result) >= 2 && result[0] == 0x7e && result[len(result)-1] == 0x7e
+//@   ensures C01.nodelim: forall(j, 1, len(result)-1, result[j] != 0x7e)
+//@   precall append#2 s1: fresh(arg0) && len(arg0) == 4 + old(v19(h)) && hdr4(arg0, old(encid(h)), old(encattr(h, len(body))), old(v19(h)))
+//@   precall append#3 s2: fresh(arg0) && len(arg0) == 4 + old(v19(h)) + old(len(h.bcdTerminalPhoneNo)) && hdr4(arg0, old(encid(h)), old(encattr(h, len(body))), old(v19(h)))
+//@   precall append#3 s2phone: sameBytes(arg0[4 + old(v19(h)) : 4 + old(v19(h)) + old(len(h.bcdTerminalPhoneNo))], old(h.bcdTerminalPhoneNo))
+//@   precall append#4 s3: fresh(arg0) && len(arg0) == 6 + old(v19(h)) + old(len(h.bcdTerminalPhoneNo)) && hdr4(arg0, old(encid(h)), old(encattr(h, len(body))), old(v19(h))) && be16(arg0, 4 + old(v19(h)) + old(len(h.bcdTerminalPhoneNo))) == old(h.PlatformSerialNumber)
+//@   precall append#4 s3phone: sameBytes(arg0[4 + old(v19(h)) : 4 + old(v19(h)) + old(len(h.bcdTerminalPhoneNo))], old(h.bcdTerminalPhoneNo))
+//@   precall CreateVerifyCode s4: fresh(arg0) && len(arg0) == 6 + old(v19(h)) + old(len(h.bcdTerminalPhoneNo)) + len(body) && hdr4(arg0, old(encid(h)), old(encattr(h, len(body))), old(v19(h))) && be16(arg0, 4 + old(v19(h)) + old(len(h.bcdTerminalPhoneNo))) == old(h.PlatformSerialNumber)
+//@   precall CreateVerifyCode s4phone: sameBytes(arg0[4 + old(v19(h)) : 4 + old(v19(h)) + old(len(h.bcdTerminalPhoneNo))], old(h.bcdTerminalPhoneNo))
+//@   precall CreateVerifyCode s4body: sameBytes(arg0[6 + old(v19(h)) + old(len(h.bcdTerminalPhoneNo)) : 6 + old(v19(h)) + old(len(h.bcdTerminalPhoneNo)) + len(body)], old(body))
+//@   precall escape C01.len: len(arg0) == 7 + old(v19(h)) + old(len(h.bcdTerminalPhoneNo)) + len(body)
+//@   precall escape C01.head: hdr4(arg0, old(encid(h)), old(encattr(h, len(body))), old(v19(h))) && be16(arg0, 4 + old(v19(h)) + old(len(h.bcdTerminalPhoneNo))) == old(h.PlatformSerialNumber)
+//@   precall escape C01.phone: sameBytes(arg0[4 + old(v19(h)) : 4 + old(v19(h)) + old(len(h.bcdTerminalPhoneNo))], old(h.bcdTerminalPhoneNo))
+//@   precall escape C01.body: sameBytes(arg0[6 + old(v19(h)) + old(len(h.bcdTerminalPhoneNo)) : 6 + old(v19(h)) + old(len(h.bcdTerminalPhoneNo)) + len(body)], old(body))
+//@   precall append#5 C01.xor: arg1[0] == utils.xorfold(arg0, len(arg0))
